@@ -1023,6 +1023,56 @@ pub async fn run_c14(w: &mut World, m: &mut Mon, r: &mut R, t: &Twin) {
             }
         }
     }
+    // the risk admin's token-less settlement of a whole debt (forced deleverage on a bank flagged for
+    // it) is a repayment like any other as far as the bank's state goes: refused while the bank is
+    // paused (the per-instruction monitor judges an accepted repay on a paused bank)
+    {
+        let risk = clone_kp(&w.groups[t.g0].risk);
+        let acct = w.accts[t.acct0].key;
+        let bk = w.banks[t.b0].key;
+        let md = w.banks[t.b0].mint;
+        let ta_d = w.new_token_account(md, risk.pubkey(), 1 << 30).await;
+        let mut o = BankConfigOpt::default();
+        o.tokenless_repayments_allowed = Some(true);
+        let flagged = w.exec(m, &[ix::configure_bank(gk, admin.pubkey(), bk, o)], &[&admin]).await.ok();
+        if flagged {
+            let mk = |w: &World| -> Vec<Instruction> {
+                let mut ixs = vec![];
+                if !w.shadow.contains_key(&ix::liq_record_key(&acct)) {
+                    ixs.push(ix::init_liq_record(acct, risk.pubkey()));
+                }
+                ixs.push(ix::start_deleverage(gk, acct, risk.pubkey(), w.risk_metas(t.acct0, None, None)));
+                ixs.push(ix::repay(gk, acct, risk.pubkey(), bk, ta_d, w.token_program_of_bank(t.b0), 0, Some(true), w.mint_prefix(t.b0)));
+                ixs.push(ix::end_deleverage(gk, acct, risk.pubkey(), w.risk_metas(t.acct0, None, Some(t.b0))));
+                ixs
+            };
+            let ctl = w.probe(m, &mk(w), &[&risk]).await;
+            m.r.count(if ctl.ok() { "C14.tokenless_settlement_controls_ok" } else { "C14.tokenless_settlement_control_failed" });
+            if !ctl.ok() {
+                m.r.note(&format!("no positive control for the risk admin's token-less settlement ({})", ctl.err_string()));
+            }
+            for st in [BankOperationalState::Paused, BankOperationalState::ReduceOnly] {
+                let i = set_state(bk, st);
+                if w.exec(m, &[i], &[&admin]).await.ok() {
+                    let o = w.probe(m, &mk(w), &[&risk]).await;
+                    m.r.eval();
+                    m.r.count("C14.tokenless_settlement_state_cells");
+                    m.r.distinct(&("tokenless-state", st as u8, o.ok(), o.custom_code()));
+                    if st == BankOperationalState::Paused && o.ok() {
+                        m.r.violate("C14", "C14/matrix/tokenless-settlement-on-paused-bank-accepted", "risk admin's whole-debt settlement inside a deleverage bracket".into());
+                    }
+                    if st == BankOperationalState::ReduceOnly && !o.ok() && ctl.ok() {
+                        m.r.violate("C14", "C14/matrix/tokenless-settlement-rejected-on-reduce-only-bank", o.err_string());
+                    }
+                }
+            }
+            let i = set_state(bk, BankOperationalState::Operational);
+            let _ = w.exec(m, &[i], &[&admin]).await;
+            let mut o = BankConfigOpt::default();
+            o.tokenless_repayments_allowed = Some(false);
+            let _ = w.exec(m, &[ix::configure_bank(gk, admin.pubkey(), bk, o)], &[&admin]).await;
+        }
+    }
     // reduce-only collateral: worth nothing for new borrowing, full for liquidation purposes
     // (with an e-mode entry in force for the collateral's tag, so that the e-mode path is covered)
     if r.gen_bool(0.7) {
